@@ -10,6 +10,7 @@ mod run_ef;
 mod run_func;
 mod run_gf2;
 mod run_lender;
+mod run_misc;
 mod run_ranksel;
 mod run_rcl;
 mod run_serde;
@@ -94,6 +95,8 @@ fn main() {
         ("func", Some(l)) => run_func::replay(&mut ctx, l),
         ("serde", None) => run_serde::run(&mut ctx),
         ("serde", Some(l)) => run_serde::replay(&mut ctx, l),
+        ("misc", None) => run_misc::run(&mut ctx),
+        ("misc", Some(l)) => run_misc::replay(&mut ctx, l),
         ("bfv", None) => run_bfv::run(&mut ctx),
         ("bfv", Some(l)) => run_bfv::replay(&mut ctx, l),
         (r, _) => {
